@@ -339,6 +339,7 @@ void h_wait_register_spawn(void)
 	} else {
 		__CPROVER_assert(r == 0 && v_I.pid == verif_in.kill_ret && g_in_tree, "[C11,C19] the new child's pid is in the pid set before the lock is released: it cannot be missed however quickly it exits");
 		__CPROVER_assert(g_child_fn_calls == 0, "[C11] the child function runs in the child only");
+		__CPROVER_assert(v_I.flags == 0 && iv_list_empty(&v_I.events_pending), "[C19,C11] a spawned interest starts out not dead with nothing queued, whatever the record held before (iv_popen re-uses freed memory): a later kill request reaches the running child");
 	}
 	__CPROVER_assert(!g_lock_held, "[C11] lock released on every path");
 	CANARY();
